@@ -119,6 +119,11 @@ def arrays(cp, R):
         "ulp-neighbours": ulp,
         "deep": deep,
         "unsorted": np.random.RandomState(3).permutation(fine),
+        # recorded abscissae are noisy: clearly oriented, locally unordered
+        "noisy-ascending": fine[::-1] + np.random.RandomState(4).normal(
+            0, 3e-8, fine.size),
+        "noisy-descending": fine + np.random.RandomState(5).normal(
+            0, 3e-8, fine.size),
         "length-1-contact": np.array([cp - 3e-7]),
         "length-1-free": np.array([cp + 3e-7]),
         "empty": np.array([], dtype=float),
